@@ -53,7 +53,8 @@ def gen_enc_case(rng, maxleaves=40, clean=False):
             dirty = "duplicate-taxon"
     probes = [rng.getrandbits(n + 6) for _ in range(rng.randint(0, 3))]
     return {"kind": "enc", "tree": t, "rooted": rng.choice(ROOTINGS), "ns": gen_ns_params(rng, n),
-            "twice": rng.random() < 0.3, "probes": probes, "shape": shape, "dirty": dirty, "unif": unif > 0}
+            "twice": rng.random() < 0.3, "probes": probes, "shape": shape, "dirty": dirty, "unif": unif > 0,
+            "su": rng.random() < 0.75, "cb": rng.random() < 0.75}
 
 
 def gen_bits_case(rng):
@@ -116,10 +117,12 @@ def observe_enc(case):
     import dendropy
     from dendropy.datamodel.treemodel import Bipartition
     ns, objs, tree, tindex, acc = setup_tree(case)
+    kw = {"suppress_unifurcations": case.get("su", True),
+          "collapse_unrooted_basal_bifurcation": case.get("cb", True)}
     try:
-        tree.encode_bipartitions()
+        tree.encode_bipartitions(**kw)
         if case["twice"]:
-            tree.encode_bipartitions()
+            tree.encode_bipartitions(**kw)
     except Exception as e:
         return {"error": core.exc_enum(e), "acc": acc}
     spec, problems = trees.dump_dendropy(tree, tindex)
@@ -300,7 +303,7 @@ def oracle_enc(case, obs):
         # mutable (unhashable); outside the property's domain (no taxa to encode), recorded in the notes
     elif sorted(set(sp for _n, _l, sp in obs["edges"])) != obs["map_keys"]:
         return ("split_bitmask_edge_map keys differ from the edges' split bitmasks", "edge-map-keys")
-    if any(len(n["kids"]) == 1 for n in trees.preorder(out)):
+    if case.get("su", True) and any(len(n["kids"]) == 1 for n in trees.preorder(out)):
         return ("unifurcation left after encode_bipartitions", "unifurcation-left")
     r0 = case["rooted"]
     if rooted_after != r0 and not (r0 is None and rooted_after is False):
@@ -476,7 +479,8 @@ def to_coq(case, obs):
                 clist([cpair(cz(n), cpair(cz(l), cz(s))) for n, l, s in obs["edges"]]),
                 clist([cpair(cz(l), cz(s)) for l, s in obs["enc"]]))
             probes = clist([cpair(cz(a), cbool(g)) for a, g, _s in obs["probes"]])
-        return "(CEnc %s %s %s %s %s %s)" % (acc, c_ob(case["rooted"]), trees.c_tree(case["tree"]),
+        return "(CEnc %s %s %s %s %s %s %s %s)" % (cbool(case.get("su", True)), cbool(case.get("cb", True)),
+                                                  acc, c_ob(case["rooted"]), trees.c_tree(case["tree"]),
                                             cbool(case["twice"]), exp, probes)
     if k == "bits":
         return "(CBits %s %s %s (mkBits %s %s %s %s %s %s))" % (
@@ -538,6 +542,7 @@ def exhaustive_cases(maxleaves=6):
                         lf["taxon"] = (i + rot) % n
                     nsp = dict(am, ntaxa=n, seed=k)
                     enc = {"kind": "enc", "tree": t, "rooted": rooted, "ns": nsp, "twice": k % 5 == 0,
+                           "su": k % 7 != 0, "cb": k % 3 != 0,
                            "probes": [(k * 2654435761) % (1 << (n + 3))], "shape": "exhaustive", "dirty": "clean",
                            "unif": False}
                     yield enc
@@ -624,6 +629,8 @@ def run(tier, seed, replay=None):
             ctx.count("enc:" + c["dirty"])
             ctx.count("enc:unifurcations" if c["unif"] else "enc:no-unifurcations")
             ctx.count("enc:twice" if c["twice"] else "enc:once")
+            ctx.count("enc:suppress_unifurcations=%s" % c.get("su", True))
+            ctx.count("enc:collapse_unrooted_basal_bifurcation=%s" % c.get("cb", True))
         if c["kind"] == "from":
             ctx.count("from:" + c["mode"])
     core.corr_stage(ctx, cases, observe, to_coq, HEADER, "case_ok", oracle=oracle, show_fn="case_show",
@@ -633,7 +640,7 @@ def run(tier, seed, replay=None):
         rule="random rose trees with 1-40 leaves (binary / polytomy / mixed / caterpillar / star / single node, "
              "optional unifurcations, missing lengths, occasionally a taxon-less or duplicate-taxon leaf), is_rooted "
              "in {True, False, None}, namespaces with vacated accession indices / extra members / sorted; "
-             "encode_bipartitions once or twice, tree-level compatibility probes; rebuild from shuffled encodings, "
+             "encode_bipartitions once or twice with suppress_unifurcations / collapse_unrooted_basal_bifurcation each False in ~25% of the cases, tree-level compatibility probes; rebuild from shuffled encodings, "
              "encodings with noise and random mask lists; static bit predicates on random mask triples (incl. "
              "negative masks); Bipartition objects built from random masks; thorough adds every shape <= 6 leaves "
              "x 3 rootings x 3 accession maps. A tree case is non-trivial with >= 4 retained edges (enc) or >= 3 "
